@@ -906,30 +906,6 @@ theorem pr_reach_reads_stream (d : Bytes) (pos : Nat) (r : PR) (n : Nat)
 
 /-! ## axioms used -/
 
-#print axioms pr_new_inv
-#print axioms pr_seek_inv
-#print axioms pr_align_inv
-#print axioms pr_readPage_inv
-#print axioms pr_read_inv
-#print axioms pr_readFail_inv
-#print axioms pr_readExact_inv
-#print axioms pr_read_sound
-#print axioms pr_read_invalid_fails
-#print axioms pr_stuck_after_crc_error
-#print axioms pr_read_err_or_same
-#print axioms image_length
-#print axioms devPage_image
-#print axioms image_page_valid
-#print axioms pr_reads_stream_read
-#print axioms pr_reads_stream_exact_partial
-#print axioms pr_reads_stream_exact_statement_false
-#print axioms pr_seek_translate
-#print axioms pr_seek_in_range
 
-#print axioms pr_reach_inv
-#print axioms pr_reach_read_sound
-#print axioms pr_reach_invalid_fails
-#print axioms pr_new_image
-#print axioms pr_reach_reads_stream
 
 end E57
